@@ -284,6 +284,173 @@ theorem signals_spec (E : Env) (S : Schema) (old : Elem) (x : Input) (out : SetO
         obtain ⟨⟨i, o⟩, _, hi⟩ := List.mem_flatMap.mp hs
         exact prefixSigs_ne i _ s hi
 
+/-! ### the returned flag of a container is the conjunction of its members' flags -/
+
+/-- the `adapted` flags signalled by the direct children, in order -/
+def directFlags (sigs : List Sig) : List Bool := (sigs.filter fun s => s.1.length == 1).map (·.2)
+
+theorem directFlags_append (a b : List Sig) : directFlags (a ++ b) = directFlags a ++ directFlags b := by
+  simp [directFlags]
+
+theorem directFlags_root (b : Bool) : directFlags [([], b)] = [] := by simp [directFlags]
+
+/-- a completed child set contributes exactly its own flag at depth 1 -/
+theorem directFlags_prefix (i : Nat) (sigs : List Sig) (flag : Bool)
+    (h : ∃ pre, sigs = pre ++ [([], flag)] ∧ ∀ s ∈ pre, s.1 ≠ []) :
+    directFlags (prefixSigs i sigs) = [flag] := by
+  obtain ⟨pre, rfl, hpre⟩ := h
+  unfold prefixSigs directFlags
+  rw [List.map_append, List.filter_append]
+  have h1 : List.filter (fun s : Sig => s.1.length == 1) (List.map (fun s : Sig => (i :: s.1, s.2)) pre) = [] := by
+    apply List.filter_eq_nil_iff.mpr
+    intro s hs
+    obtain ⟨t, ht, rfl⟩ := List.mem_map.mp hs
+    have := hpre t ht
+    cases hp : t.1 with
+    | nil => exact absurd hp this
+    | cons a l => simp [hp]
+  rw [h1]
+  simp
+
+theorem directFlags_flatMap {α} (l : List α) (f : α → List Sig) (g : α → Bool)
+    (h : ∀ a ∈ l, directFlags (f a) = [g a]) : directFlags (l.flatMap f) = l.map g := by
+  induction l with
+  | nil => rfl
+  | cons a t ih =>
+    rw [List.flatMap_cons, directFlags_append, h a (by simp), ih (fun b hb => h b (List.mem_cons_of_mem _ hb))]
+    rfl
+
+/-- **seq_flag** — `Sequence.set` on an iterable returns the conjunction of the `adapted` flags its
+    members signalled -/
+theorem seq_flag (E : Env) (m : Schema) (old : Elem) (x : Input) (out : SetOut) (items : List Input)
+    (hit : iterItems x = some items) (h : setElem E (.seq m) old x = .ok out) :
+    out.flag = (directFlags out.sigs).all id := by
+  simp only [setElem, hit] at h
+  split at h
+  · simp at h
+  · simp only [Except.ok.injEq] at h
+    subst h
+    simp only [directFlags_append, directFlags_root, List.append_nil]
+    rw [directFlags_flatMap _ _ (fun p => p.2.flag)]
+    · simp [List.all_map, Function.comp_def]
+    · rintro ⟨i, o⟩ ho
+      apply directFlags_prefix
+      -- (i, o) is the result of a member's set()
+      obtain ⟨⟨j, r⟩, hr, hjr⟩ := List.mem_filterMap.mp ho
+      obtain ⟨⟨j', y⟩, _, hy⟩ := List.mem_map.mp hr
+      simp only [Prod.mk.injEq] at hy
+      obtain ⟨rfl, rfl⟩ := hy
+      cases hres : setElem E m (blank m) y with
+      | error e => simp [hres] at hjr
+      | ok o' =>
+        simp only [hres, Option.some.injEq, Prod.mk.injEq] at hjr
+        obtain ⟨rfl, rfl⟩ := hjr
+        exact signals_spec E m (blank m) y o' hres
+
+theorem mem_indexed {α} (l : List α) (p : Nat × α) (h : p ∈ indexed l) : p.2 ∈ l := by
+  unfold indexed at h
+  exact (List.of_mem_zip h).2
+
+/-- **joined_flag** — `JoinedString.set` that gets as far as its members (any input but a
+    non-iterable) returns the conjunction of the flags its members signalled -/
+theorem joined_flag (E : Env) (sep : Str) (sp : Splitter) (prune : Bool) (k : Kind) (old : Elem) (x : Input)
+    (out : SetOut) (h : setElem E (.joined sep sp prune k) old x = .ok out)
+    (hne : out.sigs ≠ [([], false)] ∨ out.flag = true) :
+    out.flag = (directFlags out.sigs).all id := by
+  simp only [setElem] at h
+  split at h
+  · simp at h
+  · simp only [Except.ok.injEq] at h
+    subst h
+    simp at hne
+  · split at h
+    · simp at h
+    · simp only [Except.ok.injEq] at h
+      subst h
+      simp only [directFlags_append, directFlags_root, List.append_nil]
+      rw [directFlags_flatMap _ _ (fun p => p.2.flag)]
+      · simp only [List.all_map, Function.comp_def, id]
+        unfold indexed
+        generalize hl : List.filterMap _ _ = oks
+        clear hl
+        have : ∀ (l : List SetResult) (n : Nat), (List.zip (List.range' n l.length) l).all (fun p => p.2.flag) = l.all (·.flag) := by
+          intro l
+          induction l with
+          | nil => intro n; rfl
+          | cons a t ih => intro n; simp [List.range'_succ, ih]
+        simpa [List.range_eq_range'] using (this oks 0).symm
+      · rintro ⟨i, r⟩ hr
+        apply directFlags_prefix
+        have hmem := mem_indexed _ _ hr
+        obtain ⟨o, ho, hor⟩ := List.mem_filterMap.mp hmem
+        obtain ⟨v, _, rfl⟩ := List.mem_map.mp ho
+        cases hres : setScalar E k v with
+        | error e => simp [hres] at hor
+        | ok r' =>
+          simp only [hres, Option.some.injEq] at hor
+          subst hor
+          refine ⟨[], ?_, by simp⟩
+          simp [set_signals E k v r' hres]
+
+theorem runSets_calls (step : Elem → Input → Except CRaise SetOut) (e : Elem) (inputs : List (Nat × Input)) :
+    ∀ c ∈ (runSets step e inputs).calls, ∃ e' x out, step e' x = .ok out ∧ c.2 = (out.flag, out.sigs) := by
+  induction inputs generalizing e with
+  | nil => intro c hc; simp [runSets] at hc
+  | cons p rest ih =>
+    obtain ⟨j, x⟩ := p
+    intro c hc
+    simp only [runSets] at hc
+    cases hs : step e x with
+    | error r => simp [hs] at hc
+    | ok out =>
+      simp only [hs, List.mem_cons] at hc
+      rcases hc with rfl | hc
+      · exact ⟨e, x, out, hs, rfl⟩
+      · exact ih out.elem c hc
+
+theorem setFields_runs (E : Env) (names : List Str) (fields : List Schema) (pairs : List (Native × Input)) (i : Nat) :
+    ∀ p ∈ setFields E names fields pairs i, ∀ c ∈ p.2.calls,
+      ∃ f e' x out, setElem E f e' x = .ok out ∧ c.2 = (out.flag, out.sigs) := by
+  induction names generalizing fields i with
+  | nil => intro p hp; simp [setFields] at hp
+  | cons n ns ih =>
+    cases fields with
+    | nil => intro p hp; simp [setFields] at hp
+    | cons f fs =>
+      intro p hp c hc
+      simp only [setFields, List.mem_cons] at hp
+      rcases hp with rfl | hp
+      · obtain ⟨e', x, out, h1, h2⟩ := runSets_calls _ _ _ c hc
+        exact ⟨f, e', x, out, h1, h2⟩
+      · exact ih fs (i + 1) p hp c hc
+
+/-- **dict_flag** — a `Dict.set` that reaches its member loop returns the conjunction of the flags
+    signalled by the member `set()` calls it made -/
+theorem dict_flag (E : Env) (pol : Policy) (names : List Str) (fields : List Schema) (old : Elem) (x : Input)
+    (out : SetOut) (pairs : List (Native × Input)) (hp : toPairs x = some pairs)
+    (h : setElem E (.dict pol names fields) old x = .ok out) :
+    out.flag = (directFlags out.sigs).all id := by
+  simp only [setElem, hp] at h
+  split at h
+  · simp at h
+  · split at h
+    · simp at h
+    · simp only [Except.ok.injEq] at h
+      subst h
+      simp only [directFlags_append, directFlags_root, List.append_nil]
+      rw [directFlags_flatMap _ _ (fun c => c.1)]
+      · simp [List.all_map, Function.comp_def]
+      · rintro ⟨flag, sigs⟩ hc
+        unfold mergeCalls at hc
+        obtain ⟨j, _, hj⟩ := List.mem_filterMap.mp hc
+        obtain ⟨⟨i, r⟩, hr, hcall⟩ := List.exists_of_findSome?_eq_some hj
+        simp only [Option.map_eq_some_iff, Prod.mk.injEq] at hcall
+        obtain ⟨call, hfind, rfl, rfl⟩ := hcall
+        have hmem : call ∈ r.calls := List.mem_of_find?_eq_some hfind
+        obtain ⟨f, e', y, o, h1, h2⟩ := setFields_runs E names fields pairs 0 (i, r) hr call hmem
+        rw [h2]
+        exact directFlags_prefix i o.sigs o.flag (signals_spec E f e' y o h1)
+
 /-- a Dict with a String field and a list-of-Strings field, set from a pair list that names `a`
     twice: children's entries first (in loop order), the Dict's own entry last -/
 example :
